@@ -1,13 +1,14 @@
 // C01 — circuit breaker: admission law, exact accounting, guaranteed probing.
 //
 // Three engines in one binary (see NOTES.md):
-//   (A) history engine  hist.go   explicit-state search over call/time histories of the real
-//                                 breaker (fake clock, coin owned through vsched.FloatHook), with
-//                                 a look-ahead probe of every entry point in every state;
-//   (B) schedule engine sched.go  every interleaving (bounded preemptions) of 2-3 concurrent calls
-//                                 on a pre-loaded breaker under the controlled scheduler;
-//   (C) wrappers        wrap.go   exhaustive enumeration of the outcome classification of the
-//                                 rest / zrpc / redis / sqlx wrappers around the breaker.
+//
+//	(A) history engine  hist.go   explicit-state search over call/time histories of the real
+//	                              breaker (fake clock, coin owned through vsched.FloatHook), with
+//	                              a look-ahead probe of every entry point in every state;
+//	(B) schedule engine sched.go  every interleaving (bounded preemptions) of 2-3 concurrent calls
+//	                              on a pre-loaded breaker under the controlled scheduler;
+//	(C) wrappers        wrap.go   exhaustive enumeration of the outcome classification of the
+//	                              rest / zrpc / redis / sqlx wrappers around the breaker.
 package main
 
 import (
@@ -87,7 +88,7 @@ func main() {
 	// time box of the history engine; the schedule engine gets the rest
 	hd := cfg.Start.Add(200 * time.Second)
 	if cfg.Thorough() {
-		hd = cfg.Start.Add(13 * time.Minute)
+		hd = cfg.Start.Add(12 * time.Minute)
 	}
 	runHistory(cfg, r, hd)
 	runLanes(r)
